@@ -53,7 +53,10 @@ pub fn teardown_trial(idx: usize, seed: u64) -> ScenarioResult {
     let exe = std::env::current_exe().unwrap();
     let mode = (idx % 5) as u8;
     // delay grid: 0..50 ms in 250 us steps (idx walks the grid), plus a seeded fine offset
-    let delay_us = ((idx / 5) as u64 * 250) % 50_000 + seed % 250;
+    // (a sanitizer build is several times slower: the companion stretches the grid so that the
+    // tear-down still lands while traffic is flowing, not before the first handshake is done)
+    let scale: u64 = std::env::var("VERIF_DELAY_SCALE").ok().and_then(|s| s.parse().ok()).unwrap_or(1);
+    let delay_us = (((idx / 5) as u64 * 250) % 50_000 + seed % 250) * scale;
     let nets = 4 + (seed as usize % 3);
     let mut child = Command::new(exe)
         .args(["C08", "--trial", &seed.to_string(), &delay_us.to_string(), &mode.to_string(), &nets.to_string()])
